@@ -154,6 +154,11 @@ var randTable = []randRow{
 
 func init() {
 	register("C07",
+		Rule{ID: "C07.n", Explain: "generator state is neither shared without a lock nor copied (the rules of C20.l and C20.n with this property's entry points): a copy of the CPRNG (value receiver, dereference) or a second generator keyed from a copy replays the keystream, i.e. repeats randomizers across proofs.",
+			Run: func(P *Program, R *Report) {
+				packageStateRule(P, R, "C07.n", []string{"gabi.(*Credential).CreateDisclosureProof", "common.FastRandomBigInt", "common.RandomBigInt", "gabi.(*Credential).NonrevPrepareCache"}, 1)
+				pooledAndCopiedRule(P, R, "C07.n")
+			}},
 		Rule{ID: "C07.a", Explain: "source: every tabled randomiser is the direct result of its own call to an approved generator with the specified length, made in the constructing function (inside the loop for per-element randomisers); no two randomisers share one generator call.",
 			Run: func(P *Program, R *Report) { randomizerSourceRule(P, R) }},
 		Rule{ID: "C07.b", Explain: "override discipline: the only writes to a disclosure builder's attrRandomizers are the constructor loop, index 0 <- randomizers[\"secretkey\"] in Commit, and the revocation index <- the randomiser of the builder obtained from nonrevConsumeBuilder in the same constructor call.",
